@@ -459,6 +459,94 @@ def part_flow_params(_):
     return res
 
 
+
+def part_flow_events(_):
+    """parameters WRITTEN in a statement on a flow event count like any other: the return value in
+    `match f.Finished(return_value=..)` / `match FlowFinished(flow_id=.., return_value=..)`, a flow parameter in
+    `match StartFlow(flow_id=.., p=..)` / `match FlowStarted(flow_id=.., p=..)`"""
+    res = {"flow_event_cases": 0, "violations": []}
+    cases = []
+    for rv in (6, "six", [1, 2]):
+        lit = repr(rv).replace("'", '"')
+        other = '"no"' if rv != "no" else '"yes"'
+        for stmt, exp in ((f"f.Finished(return_value={lit})", True), (f"f.Finished(return_value={other})", False), (f"f.Finished(return_value=5)", False),
+                          (f"FlowFinished(flow_id=\"f\", return_value={lit})", True), (f"FlowFinished(flow_id=\"f\", return_value=5)", False),
+                          (f"FlowFinished(return_value={lit})", True), (f"FlowFinished(return_value=5)", False),
+                          ("FlowFinished(flow_id=\"g\")", False), ("f.Finished()", True)):
+            src = (f"flow f $p\n  match Go()\n  return {lit}\n\n@loop(\"w\")\nflow watcher\n  match {stmt}\n  send Marker()\n  match Never()\n\n"
+                   "flow main\n  start watcher\n  start f 1\n  match Never()\n")
+            cases.append((src, stmt, exp, "Go", f"`flow f` returns {lit}"))
+    for stmt, exp in (("StartFlow(flow_id=\"f\", p=1)", True), ("StartFlow(flow_id=\"f\", p=2)", False), ("StartFlow(flow_id=\"f\", p=regex(\"^1$\"))", True),
+                      ("StartFlow(flow_id=\"f\", p=regex(\"^2$\"))", False), ("StartFlow(flow_id=\"f\")", True), ("StartFlow(flow_id=\"g\", p=1)", False),
+                      ("StartFlow(p=1)", True), ("StartFlow(p=2)", False),
+                      ("FlowStarted(flow_id=\"f\", p=1)", True), ("FlowStarted(flow_id=\"f\", p=2)", False), ("f.Started(p=1)", True), ("f.Started(p=2)", False)):
+        src = (f"flow f $p\n  match Never()\n\n@loop(\"w\")\nflow watcher\n  match {stmt}\n  send Marker()\n  match Never()\n\n"
+               "flow main\n  start watcher\n  match Go()\n  start f $p=1\n  match Never()\n")
+        cases.append((src, stmt, exp, "Go", "`start f $p=1`"))
+    for src, stmt, exp, trigger, what in cases:
+        try:
+            st = v2x.init_state(src)
+            v2x.step(st, v2x.resolve_event(st, ("start_main",)), [], v2x.UIDS.n)
+            early = any(e["type"] == "Marker" for e in st.outgoing_events)
+            v2x.step(st, {"type": trigger}, [], v2x.UIDS.n)
+            got = early or any(e["type"] == "Marker" for e in st.outgoing_events)
+        except Exception as e:
+            res["violations"].append(("flow-event:raised", f"`match {stmt}` ({what}): {e!r}", {"engine": "C04-flowevent", "source": src}))
+            continue
+        res["flow_event_cases"] += 1
+        if got != exp:
+            ev = stmt.split("(")[0].split(".")[-1]
+            kind = ("written-parameter-ignored:" if not exp else "matching-event-missed:") + ev
+            res["violations"].append((f"flow-event:{kind}", f"{what}: `match {stmt}` expected advance={exp}, got {got}", {"engine": "C04-flowevent", "source": src}))
+    seen, uniq = set(), []
+    for v in res["violations"]:
+        if v[0] not in seen:
+            seen.add(v[0])
+            uniq.append(v)
+    res["violations"] = uniq
+    return res
+
+
+def part_sent_values(_):
+    """the received value was built by another flow from a variable (`$d = <literal>` / `send E(p=$d)`) and comes back as
+    an input event the way the event-processing API feeds emitted events back: the match decision must be the one for the
+    same value written as a literal"""
+    res = {"sent_value_cases": 0, "violations": []}
+    pats = [t for t in patterns(1, True)][:40]
+    vals = [v for v in values(1, True) if isinstance(v, tuple) and v[0] in ("dict", "list", "set")][:30]
+    v2x.FEED_BACK[0] = True
+    try:
+        for p_ in pats:
+            for v_ in vals:
+                exp = ref_match(p_, v_)
+                for how in ("variable", "literal"):
+                    sender = (f"  $d = {to_colang(v_)}\n  send E(p=$d)\n" if how == "variable" else f"  send E(p={to_colang(v_)})\n")
+                    src = (f"@loop(\"w\")\nflow watcher\n  match E(p={to_colang(p_)})\n  send Marker()\n  match Never()\n\n"
+                           f"flow sender\n  match Go()\n{sender}  match Never()\n\nflow main\n  start watcher\n  start sender\n  match Never()\n")
+                    try:
+                        st = v2x.init_state(src)
+                        v2x.step(st, v2x.resolve_event(st, ("start_main",)), [], v2x.UIDS.n)
+                        v2x.step(st, {"type": "Go"}, [], v2x.UIDS.n)
+                        got = any(e["type"] == "Marker" for e in st.outgoing_events)
+                    except Exception as e:
+                        res["violations"].append(("sent-value:raised", f"{to_colang(p_)} vs {to_colang(v_)} ({how}): {e!r}", {"engine": "C04-sent", "source": src}))
+                        continue
+                    res["sent_value_cases"] += 1
+                    if got != exp:
+                        res["violations"].append((f"sent-value:{classify(p_, v_)}:value-sent-from-a-{how}",
+                                                  f"`match E(p={to_colang(p_)})`, value {to_colang(v_)} sent by another flow from a {how}: expected advance={exp}, got {got}",
+                                                  {"engine": "C04-sent", "source": src}))
+    finally:
+        v2x.FEED_BACK[0] = False
+    seen, uniq = set(), []
+    for v in res["violations"]:
+        if v[0] not in seen:
+            seen.add(v[0])
+            uniq.append(v)
+    res["violations"] = uniq
+    return res
+
+
 RESERVED_NAMES = ["return_value", "activated", "source_flow_instance_uid"]
 
 
@@ -622,6 +710,14 @@ def run(rep, tier):
     for sig, what, rp in fp["violations"]:
         rep.violation(sig, what, rp)
     rep.set("flow_name_event_cases", fp["flow_param_cases"])
+    fe = part_flow_events(None)
+    for sig, what, rp in fe["violations"]:
+        rep.violation(sig, what, rp)
+    rep.set("flow_event_cases", fe["flow_event_cases"])
+    sv = [r for r in par.pmap(part_sent_values, [0])][0]
+    for sig, what, rp in sv["violations"]:
+        rep.violation(sig, what, rp)
+    rep.set("sent_value_cases", sv["sent_value_cases"])
     rep.set("action_progress_cases", pr["progress_cases"])
     rep.set("interpreter_level_programs", progs)
     rep.set("interpreter_level_steps", steps)
